@@ -10,7 +10,7 @@ TECHNIQUE = ("deterministic simulation: seeded single/multiple/persistent I/O-fa
              "rename of the real binary's edit run; outcome oracle (exit status, printed count, follow-up --check, leftovers) "
              "against a fault-free twin")
 LEVEL_TEXT = ("For sampled projects, every create/write/rename operation on a scratch file (thorough: all of them with every legal "
-              "errno - a sample of 300 in worlds of several hundred files -, plus persistent and multi-fault plans; quick: a biased sample) is made to fail or tear. The oracle is outcome "
+              "errno - a sample of them in worlds of several hundred files -, plus persistent and multi-fault plans; quick: a biased sample) is made to fail or tear. The oracle is outcome "
               "based: a file the twin updates that is not completely updated forces a non-zero exit; exit 0 implies exact count, a "
               "passing --check and no scratch file left. Sampled worlds, enumerated fault sites.")
 LEVEL_NOTE = ("Trusted: seam completeness for the dynamically linked binary; the twin defines which files need an update; the "
@@ -58,8 +58,10 @@ def plans_for(rng, ops, phm, tier, base):
         if o.kind == "WRITE" and o.req > 1:
             single.append({"k": o.k, "act": "torn", "errno": rng.choice(["EIO", "ENOSPC"]), "frac": rng.choice([0.1, 0.5, 0.9])})
     plans = []
-    if thorough and len(single) > 300:
-        # (a world of several hundred files has thousands of sites, each costing a run over all of them)
+    huge = len(ops) > 2500       # a world of several hundred files: thousands of sites, each costing a run over all of them
+    if thorough and huge:
+        chosen = common.weighted_sample(rng, single, [1] * len(single), 40)
+    elif thorough and len(single) > 300:
         chosen = common.weighted_sample(rng, single, [1] * len(single), 300)
     elif thorough or len(single) <= 14:
         chosen = single
@@ -72,7 +74,7 @@ def plans_for(rng, ops, phm, tier, base):
     counts = {"OPEN_W": 0, "WRITE": 0, "RENAME": 0}
     for o in sites:
         counts[o.kind] += 1
-    nmulti = 6 if not thorough else 40
+    nmulti = 6 if (not thorough or huge) else 40
     for _ in range(nmulti):
         fs = []
         used = set()
